@@ -57,6 +57,14 @@ def cases(ctx):
             pool = [["R", i] for i in rng.sample(range(16), k)]
             n = max(n, k + 6)
             prog = gs.gen_source(rng, st, n, pool=pool, pressure=True)
+        elif rng.random() < 0.1:
+            # many distinct registers across all four banks (C, Q, M registers named before the R registers)
+            wide = [[b, i] for b in "CQM" for i in rng.sample(range(16), rng.choice([6, 10, 16]))]
+            rng.shuffle(wide)
+            rs = [["R", i] for i in rng.sample(range(16), rng.choice([2, 5, 9]))]
+            pool = wide + rs
+            n = max(n, min(len(pool), 36) + 6)
+            prog = gs.gen_source(rng, st, n, pool=pool, pressure=True)
         else:
             prog = gs.gen_source(rng, st, n, npool=rng.choice([4, 6, 10, 14]))
         items, label_pos = gs.add_labels(rng, prog)
